@@ -16,29 +16,30 @@ import (
 
 // Scenario is one closed system + bounds + oracles.
 type Scenario struct {
-	Name           string        `json:"name"`
-	Cfg            hdr.Config    `json:"config"`
-	N              int           `json:"max_submissions"`                         // bound on submissions of new headers
-	M              int           `json:"max_maintenance"`                         // bound on maintenance operations
-	Maint          []hdr.Op      `json:"maintenance_ops"`                         // maintenance alphabet
-	Subs           int           `json:"max_subscribers"`                         // bound on subscribe operations
-	Marks          int           `json:"max_marks"`                               // bound on mark/unmark operations
-	Slots          []string      `json:"slots"`                                   // child slots offered per parent (default a,b,H)
-	Races          []int         `json:"concurrent_submitter_variants,omitempty"` // offer fullrace(variant) operations on the genesis-only chain with a subscriber
-	Lag            int           `json:"lagging_growth,omitempty"`                // offer one growlag(Lag) operation on the genesis-only chain
-	Attach         []int         `json:"attach,omitempty"`                        // base worlds: base heights (relative to base tip, <= 0) where forks may start
-	Probes         bool          `json:"probes"`                                  // add duplicate / orphan submissions as operations
-	Grows          int           `json:"max_grow_ops,omitempty"`                  // bound on "grow" operations (extend the best chain by GrowBy headers at once)
-	GrowBy         int           `json:"grow_by,omitempty"`
-	GrowSides      int           `json:"max_growside_ops,omitempty"` // bound on "growside" operations (extend the heaviest side leaf by GrowSideBy double-work headers)
-	GrowSideBy     int           `json:"growside_by,omitempty"`
-	MarkOnlyKnown  bool          `json:"mark_only_known,omitempty"`       // marks: accepted headers only (no pre-empted or unknown hashes, no unmarking)
-	Faults         []int         `json:"storage_fault_at_call,omitempty"` // submissions reaching a multiple of 10000 are also offered with the k-th storage call failing
-	OnlyTipParents int           `json:"only_tip_parents,omitempty"`      // offer children only for the last k accepted headers (tall prefix chains)
-	ForeignProbes  bool          `json:"foreign_probes,omitempty"`        // offer the synthetic foreign split headers with unknown parents too
-	WorkProbe      bool          `json:"work_probe,omitempty"`            // add a submission with proof-of-work checking switched on
-	MaxTime        time.Duration `json:"-"`
-	oracles        []oracle
+	Name             string        `json:"name"`
+	Cfg              hdr.Config    `json:"config"`
+	N                int           `json:"max_submissions"`                         // bound on submissions of new headers
+	M                int           `json:"max_maintenance"`                         // bound on maintenance operations
+	Maint            []hdr.Op      `json:"maintenance_ops"`                         // maintenance alphabet
+	Subs             int           `json:"max_subscribers"`                         // bound on subscribe operations
+	Marks            int           `json:"max_marks"`                               // bound on mark/unmark operations
+	Slots            []string      `json:"slots"`                                   // child slots offered per parent (default a,b,H)
+	Races            []int         `json:"concurrent_submitter_variants,omitempty"` // offer fullrace(variant) operations on the genesis-only chain with a subscriber
+	Lag              int           `json:"lagging_growth,omitempty"`                // offer one growlag(Lag) operation on the genesis-only chain
+	Attach           []int         `json:"attach,omitempty"`                        // base worlds: base heights (relative to base tip, <= 0) where forks may start
+	Probes           bool          `json:"probes"`                                  // add duplicate / orphan submissions as operations
+	Grows            int           `json:"max_grow_ops,omitempty"`                  // bound on "grow" operations (extend the best chain by GrowBy headers at once)
+	GrowBy           int           `json:"grow_by,omitempty"`
+	GrowSides        int           `json:"max_growside_ops,omitempty"` // bound on "growside" operations (extend the heaviest side leaf by GrowSideBy double-work headers)
+	GrowSideBy       int           `json:"growside_by,omitempty"`
+	UnmarkConfigured bool          `json:"unmark_configured,omitempty"`     // offer unmark for hashes marked through the configuration
+	MarkOnlyKnown    bool          `json:"mark_only_known,omitempty"`       // marks: accepted headers only (no pre-empted or unknown hashes, no unmarking)
+	Faults           []int         `json:"storage_fault_at_call,omitempty"` // submissions reaching a multiple of 10000 are also offered with the k-th storage call failing
+	OnlyTipParents   int           `json:"only_tip_parents,omitempty"`      // offer children only for the last k accepted headers (tall prefix chains)
+	ForeignProbes    bool          `json:"foreign_probes,omitempty"`        // offer the synthetic foreign split headers with unknown parents too
+	WorkProbe        bool          `json:"work_probe,omitempty"`            // add a submission with proof-of-work checking switched on
+	MaxTime          time.Duration `json:"-"`
+	oracles          []oracle
 }
 
 // oracle is one property's check of a transition: pre runs in the state before the last
@@ -181,10 +182,22 @@ func (sc *Scenario) enabled(w *hdr.World, hist []hdr.Op) []hdr.Op {
 				continue
 			}
 		}
+		if sc.UnmarkConfigured {
+			// hashes that are marked because the configuration lists them can be unmarked like any other
+			for _, l := range uniq(sc.Cfg.Invalid) {
+				if w.IsMarkedHash(l) && !w.IsMarkedLabel(l) {
+					ops = append(ops, hdr.Op{K: "unmark", L: l})
+				}
+			}
+		}
 	}
 	if sc.Marks > 0 {
 		// re-offer headers that were removed by marking or refused as marked (resubmission)
-		for _, l := range append(append([]string{}, w.Removed...), w.MarkedLabels...) {
+		reoffer := append(append([]string{}, w.Removed...), w.MarkedLabels...)
+		if sc.UnmarkConfigured {
+			reoffer = append(reoffer, uniq(sc.Cfg.Invalid)...)
+		}
+		for _, l := range reoffer {
 			if w.Tree.Get(hdr.RH(hdr.Get(l).Hash)) == nil && countResub(hist, l) < 2 {
 				ops = append(ops, hdr.Op{K: "sub", L: l})
 			}
@@ -404,4 +417,16 @@ func doReplay(prop, path string) int {
 		return 1
 	}
 	return 0
+}
+
+func uniq(l []string) []string {
+	var r []string
+	seen := map[string]bool{}
+	for _, x := range l {
+		if !seen[x] {
+			seen[x] = true
+			r = append(r, x)
+		}
+	}
+	return r
 }
